@@ -169,6 +169,9 @@ def invalid_values(kind):
                     arr1d=np.array([3, 4]), q=5 * u.deg, inf=float('inf'))
     if kind == 'pixcoord_scalar':
         return dict(common, array=pca, sky=sc, tuple=(1.0, 2.0), num=3.0,
+                    # arrays of ONE element (they broadcast against anything)
+                    array1=R.PixCoord([4.0], [5.0]),
+                    array5=R.PixCoord([4.0] * 5, [5.0] * 5),
                     arr2d=R.PixCoord([[1.0]], [[2.0]]), nparr=np.array([1.0, 2.0]))
     if kind == 'pixcoord_1d':
         return dict(common, scalar=pc, sky=sca,
@@ -176,6 +179,7 @@ def invalid_values(kind):
                     tuples=[(0, 0), (1, 0), (0, 1)], nparr=np.zeros((3, 2)))
     if kind == 'skycoord_scalar':
         return dict(common, array=sca, pix=pc, tuple=(1.0, 2.0),
+                    array1=SkyCoord([1.5] * u.deg, [2.5] * u.deg),
                     q=1 * u.deg, twod=SkyCoord([[1]] * u.deg, [[2]] * u.deg))
     if kind == 'skycoord_1d':
         return dict(common, scalar=sc, pix=pca,
